@@ -34,20 +34,24 @@ if os.path.isdir(iroot):
                 repl[os.path.join(tgt, "zz_verif_" + f)] = os.path.join(iroot, pk, f)
 
 # 3. import shims
-def shim(relpath, imp, new):
+def shim(relpath, *pairs):
+    """Re-emit <repo>/relpath with each import imp replaced by verifx/new (pairs: imp, new, imp, new, ...)."""
     src = os.path.join(repo, relpath)
     txt = open(src).read()
-    pat = re.compile(r'^\t"%s"$' % re.escape(imp), re.M)
-    if not pat.search(txt):
-        sys.stderr.write("BROKEN: import %r not found in %s\n" % (imp, relpath))
-        sys.exit(2)
-    txt = pat.sub('\t%s "%s/verifx/%s"' % (imp.split("/")[-1], MOD, new), txt, count=1)
+    for imp, new in zip(pairs[0::2], pairs[1::2]):
+        pat = re.compile(r'^\t"%s"$' % re.escape(imp), re.M)
+        if not pat.search(txt):
+            if imp == "sync":
+                continue  # the file no longer locks anything itself: nothing to shim
+            sys.stderr.write("BROKEN: import %r not found in %s\n" % (imp, relpath))
+            sys.exit(2)
+        txt = pat.sub('\t%s "%s/verifx/%s"' % (imp.split("/")[-1], MOD, new), txt, count=1)
     out = os.path.join(outdir, flavour + "__" + relpath.replace("/", "__"))
     open(out, "w").write(txt)
     repl[src] = out
 
 if flavour == "vtime":
-    shim("lib/opshell/opshell.go", "time", "vtime")
+    shim("lib/opshell/opshell.go", "time", "vtime", "sync", "vsync")
 elif flavour == "vos":
     shim("lib/sstls/archive.go", "os", "vos")
     shim("lib/sstls/gencert.go", "os", "vos")
